@@ -143,9 +143,10 @@ Section Box.
       eapply hoare_bind with (R1 := fun _ => True); [apply hoare_call; [exact Bx|auto]|].
       intros [[[a1 a2] a3] a4] _. apply hoare_ret. exact I.
     - intros [[[[f1 fo] g1] G1] filt] _.
+      destruct (if filt then _ else _) as [X1 G2].
       destruct (is_f0_target_reached _ _); [apply hoare_ret; split; [exact Bx|exact H2]|].
       destruct (is_f0_min_change_reached _ _ _); [apply hoare_ret; split; [exact Bx|exact H2]|].
-      destruct (if filt then _ else _) as [X1 G2]. destruct (update_mem K c _ _ _ _ _) as [[X2 G3] m2].
+      destruct (update_mem K c _ _ _ _ _) as [[X2 G3] m2].
       destruct (u_cb U) as [cb|]; [|apply hoare_ret; split; [exact Bx|exact H2]].
       eapply hoare_bind with (R1 := fun _ => True); [apply hoare_call; [exact Bx|auto]|].
       intros b _. destruct b; apply hoare_ret; (split; [exact Bx|exact H2]).
@@ -200,7 +201,8 @@ Section Box.
       eapply hoare_bind with (R1 := fun _ => True); [apply hoare_call; [exact Bx|auto]|].
       intros [[[a1 a2] a3] a4] _. apply hoare_ret. exact I. }
     intros [[f1 g1] G1] _.
-    destruct (match X with [] => _ | _ => _ end) as [[X1 G2] m1].
+    destruct (match u_upd U with Some _ => _ | None => _ end) as [X' G'].
+    destruct (match X' with [] => _ | _ => _ end) as [[X1 G2] m1].
     eapply hoare_bind with (R1 := SI); [apply box_loop; split; [exact Bx|exact H3]|].
     intros s [Hx _]. apply hoare_ret. unfold classify.
     destruct (leb _ _); [exact Hx|]. destruct (_ >=? _); [exact Hx|]. destruct (_ >=? _); exact Hx.
